@@ -1,6 +1,7 @@
 ---------------------------- MODULE MCPushQueue ----------------------------
 EXTENDS PushQueue, IOUtils
 Unbounded == 0          \* max_pending = 0 means no bound, as in the code
+CapUnbounded == {Unbounded}
 CapsQuick    == {Unbounded, 1}
 CapsFull     == {Unbounded, 1, 2}
 AllPolicies  == {"queue", "burst", "conf"}
